@@ -137,6 +137,11 @@ theorem evalRV_names (cfg : Cfg) (s s1 : St) (r : RV) (v : Val) (h : evalRV cfg 
     cases hr : readPlace s p with
     | none => simp [hr] at h
     | some w => simp [hr] at h; rw [← h.2]
+  | call p =>
+    simp only [evalRV] at h
+    cases hr : readPlace s p with
+    | none => simp [hr] at h
+    | some w => simp [hr] at h; rw [← h.2]
   | lit l =>
     simp only [evalRV] at h
     cases ha : Lit.alloc cfg s l s.next with
@@ -156,7 +161,7 @@ theorem stepOpt_names (cfg : Cfg) (s s' : St) (op : Op) (hr : op.isRef = false)
       obtain ⟨v, s1⟩ := vs
       simp only [he] at h
       injection h with h; subst h
-      simp [setVar_names, evalRV_names cfg s s1 r v he]
+      split <;> simp [setVar_names, evalRV_names cfg s s1 r v he]
   | setProp x p r =>
     simp only [stepOpt] at h
     cases he : evalRV cfg s r with
